@@ -14,7 +14,8 @@ BundleDef ==
      B7  |-> B({N("spdx", 2021, 2023, "H1")}, {}, {}, FALSE, FALSE),
      B8  |-> B({N("spdx", 2024, 2024, "H1")}, {"MIT"}, {}, FALSE, TRUE),
      B9  |-> B({N("spdx", 2024, 2024, "H1"), N("spdx", 2024, 2024, "H2")}, {"MIT", "ISC"}, {"C2"}, FALSE, FALSE),
-     B10 |-> B({N("string", 2030, 2030, "H2")}, {}, {}, TRUE, FALSE) ]
+     B10 |-> B({N("string", 2030, 2030, "H2")}, {}, {}, TRUE, FALSE),
+     B11 |-> B({N("spdx", 2016, 2018, "H1")}, {"MIT"}, {}, TRUE, FALSE) ]     \* a year range AND --merge-copyrights
 SmallBundles == [b \in {"B1", "B2", "B3", "B5", "B8"} |-> BundleDef[b]]
 
 RECURSIVE SetToSeq(_)
